@@ -196,6 +196,11 @@ func (ch c17) Run(c *core.Ctx) {
 		}
 		rng := core.NewRng(c.Seed, "C17", 0, i)
 		spec := &hs.ErrSpec{Base: "base " + rng.Text(1+rng.Intn(60), true)}
+		if rng.Intn(10) == 0 {
+			// a text is a text: errors relayed from another database keep the rendering their driver gave them
+			spec.Base = core.Pick(rng, []string{"ERROR: relation \"t\" does not exist (SQLSTATE 42P01)", "FATAL: terminating connection (SQLSTATE 57P01)", "upstream said: deadlock detected (SQLSTATE 40P01)", "pq: duplicate key value violates unique constraint \"t_pkey\"", "ERROR:  syntax error at or near \"x\" at character 8", "SQLSTATE 23505", "(SQLSTATE 00000)"})
+			c.Count("relayed_error_texts", 1)
+		}
 		if rng.Intn(6) == 0 {
 			spec.Cause = 1 + rng.Intn(len(hs.Causes)-1) // the base error wraps (or, below, is) a standard-library error
 			c.Count("stdlib_causes", 1)
